@@ -36,12 +36,14 @@ def suite_ok(tree):
 def main():
     ids = sys.argv[1:] or sorted(d for d in os.listdir('/tmp/mut') if d.startswith('C'))
     for pid in ids:
-        for k in (1, 2):
+        for k in range(1, 9):
             src = f'/tmp/mut/{pid}/out/m{k}'
             if not os.path.isdir(src):
                 continue
             sid = f'{pid}-m{k}'
             dst = f'/verif/seeded/{sid}'
+            if os.path.exists(os.path.join(dst, 'meta.json')) and json.load(open(os.path.join(dst, 'meta.json'))).get('confirmed'):
+                continue
             os.makedirs(dst, exist_ok=True)
             for f in ('patch.diff', 'demo.py', 'notes.md'):
                 if os.path.exists(os.path.join(src, f)):
